@@ -64,30 +64,54 @@ Record qr := mkQr {
   q_queues : list (list rvalue)
 }.
 
-Definition qr_new (file_offset : N) (proto : list dtype) : rprog qr :=
+Definition qr_new (file_offset records : N) (proto : list dtype) : rprog qr :=
   r_seek file_offset ;;;
   h <- cv_header_read ;;
-  r_seek (cv_data_offset h) ;;;
+  (* an empty compressed vector has no packets: no seek to its data offset *)
+  (if 0 <? records then r_seek (cv_data_offset h) else rret tt) ;;;
   rret (mkQr proto (map (fun _ => bsr_new) proto) (map (fun _ => []) proto)).
 
-(** [available]: 0 for an empty prototype, else the shortest queue. *)
-Definition qr_available (q : qr) : N :=
-  match q_queues q with
-  | [] => 0
-  | x :: r => fold_left (fun m y => N.min m (len y)) r (len x)
+(** [available]: the shortest queue among the records of non-zero bit size
+    (records of zero bit size are not stored); 0 when there is none. *)
+Fixpoint avail_sized (proto : list dtype) (queues : list (list rvalue)) (acc : option N) : option N :=
+  match proto, queues with
+  | t :: pr', q :: qr' =>
+      if bit_size t =? 0 then avail_sized pr' qr' acc
+      else avail_sized pr' qr' (Some (match acc with None => len q | Some m => N.min m (len q) end))
+  | _, _ => acc
   end.
 
-(** [pop_point]: one value from the front of every queue. *)
-Fixpoint pop_fronts (qs : list (list rvalue)) : res (list rvalue * list (list rvalue)) :=
-  match qs with
-  | [] => Ok ([], [])
-  | [] :: _ => Err EInternal
-  | (v :: q) :: r =>
-      match pop_fronts r with
-      | Ok (vs, r') => Ok (v :: vs, q :: r')
+Definition qr_available (q : qr) : N :=
+  match avail_sized (q_proto q) (q_queues q) None with
+  | Some m => m
+  | None => 0
+  end.
+
+(** [pop_point]: for every record, the minimum when its bit size is zero, else
+    one value from the front of its queue. *)
+Fixpoint pop_fronts (proto : list dtype) (qs : list (list rvalue)) : res (list rvalue * list (list rvalue)) :=
+  match proto, qs with
+  | t :: pr', q :: r =>
+      let one : res (rvalue * list rvalue) :=
+        match t, bit_size t =? 0 with
+        | TInteger mn _, true => Ok (VInteger mn, q)
+        | TScaled mn _, true => Ok (VScaled mn, q)
+        | _, _ => match q with
+                  | [] => Err EInternal
+                  | v :: q' => Ok (v, q')
+                  end
+        end in
+      match one with
+      | Ok (v, q') =>
+          match pop_fronts pr' r with
+          | Ok (vs, r') => Ok (v :: vs, q' :: r')
+          | Err k => Err k
+          | Panic => Panic
+          end
       | Err k => Err k
       | Panic => Panic
       end
+  | _, _ => Ok ([], [])
   end.
 
 (** the [for i in 0..buffer_sizes.len()] loop reading the u16 stream lengths *)
@@ -108,45 +132,17 @@ Fixpoint read_streams (sizes : list N) (streams : list bsr) : rprog (list bsr) :
   | _, _ => rret []
   end.
 
-(** [min_queue_size]; [None] stands for usize::MAX (no record of non-zero width). *)
-Fixpoint min_queue_size (proto : list dtype) (streams : list bsr) (queues : list (list rvalue))
-  (acc : option N) : res (option N) :=
-  match proto, streams, queues with
-  | t :: pr', s :: sr, q :: qr' =>
-      let bits := bit_size t in
-      if bits =? 0 then min_queue_size pr' sr qr' acc else
-      match bsr_available s with
-      | Ok av =>
-          let items := av / bits + len q in
-          let acc' := match acc with
-                      | None => Some items
-                      | Some m => Some (if items <? m then items else m)
-                      end in
-          min_queue_size pr' sr qr' acc'
-      | Err k => Err k
-      | Panic => Panic
-      end
-  | _, _, _ => Ok acc
-  end.
-
-(** [parse_byte_streams] *)
-Fixpoint parse_streams (proto : list dtype) (streams : list bsr) (queues : list (list rvalue)) (mqs : N)
+(** [parse_byte_streams]: records of zero bit size are skipped *)
+Fixpoint parse_streams (proto : list dtype) (streams : list bsr) (queues : list (list rvalue))
   : res (list bsr * list (list rvalue)) :=
   match proto, streams, queues with
   | t :: pr', s :: sr, q :: qr' =>
       let one :=
-        match t with
-        | TSingle | TDouble => res_map (fun '(s', vs) => (s', q ++ vs)) (unpack_type t s)
-        | TScaled mn mx =>
-            if bit_size t =? 0 then Ok (s, q ++ repeat (VScaled mn) (N.to_nat (mqs - len q)))
-            else res_map (fun '(s', vs) => (s', q ++ vs)) (unpack_type t s)
-        | TInteger mn mx =>
-            if bit_size t =? 0 then Ok (s, q ++ repeat (VInteger mn) (N.to_nat (mqs - len q)))
-            else res_map (fun '(s', vs) => (s', q ++ vs)) (unpack_type t s)
-        end in
+        if bit_size t =? 0 then Ok (s, q)
+        else res_map (fun '(s', vs) => (s', q ++ vs)) (unpack_type t s) in
       match one with
       | Ok (s', q') =>
-          match parse_streams pr' sr qr' mqs with
+          match parse_streams pr' sr qr' with
           | Ok (ss, qs) => Ok (s' :: ss, q' :: qs)
           | Err k => Err k
           | Panic => Panic
@@ -156,6 +152,9 @@ Fixpoint parse_streams (proto : list dtype) (streams : list bsr) (queues : list 
       end
   | _, _, _ => Ok ([], [])
   end.
+
+(** is there a record of non-zero bit size? *)
+Definition has_sized (proto : list dtype) : bool := existsb (fun t => negb (bit_size t =? 0)) proto.
 
 Definition INDEX_HEADER_SIZE : N := 16.
 Definition IGNORED_HEADER_SIZE : N := 4.
@@ -174,13 +173,9 @@ Definition qr_advance (q : qr) : rprog qr :=
        if negb (count =? len (q_streams q)) then rfail EInvalid else
        sizes <- read_sizes (length (q_proto q)) ;;
        streams <- read_streams sizes (q_streams q) ;;
-       mqs <- rlift (min_queue_size (q_proto q) streams (q_queues q) None) ;;
-       match mqs with
-       | None => rfail ENotImpl
-       | Some m =>
-           '(ss, qs) <- rlift (parse_streams (q_proto q) streams (q_queues q) m) ;;
-           rret (mkQr (q_proto q) ss qs)
-       end
+       if negb (has_sized (q_proto q)) then rfail ENotImpl else
+       '(ss, qs) <- rlift (parse_streams (q_proto q) streams (q_queues q)) ;;
+       rret (mkQr (q_proto q) ss qs)
    end) ;;
   r_align ;;; rret q'.
 
@@ -188,7 +183,7 @@ Definition qr_advance (q : qr) : rprog qr :=
 Record raw_iter := mkRaw { ri_q : qr; ri_records : N; ri_read : N }.
 
 Definition raw_new (file_offset records : N) (proto : list dtype) : rprog raw_iter :=
-  q <- qr_new file_offset proto ;; rret (mkRaw q records 0).
+  q <- qr_new file_offset records proto ;; rret (mkRaw q records 0).
 
 (** the refill loop [while available() < 1 { advance()? }]; every successful
     [advance] consumes at least four bytes of the logical stream, which bounds the fuel *)
@@ -209,7 +204,7 @@ Arguments Item {A} a.
 Definition raw_next (log_size : N) (it : raw_iter) : rprog (raw_iter * step_out (list rvalue)) :=
   if ri_records it <=? ri_read it then rret (it, Done) else
   q <- refill (refill_fuel log_size) (ri_q it) ;;
-  match pop_fronts (q_queues q) with
+  match pop_fronts (q_proto q) (q_queues q) with
   | Ok (vs, qs) => rret (mkRaw (mkQr (q_proto q) (q_streams q) qs) (ri_records it) (ri_read it + 1), Item vs)
   | Err k => rfail k
   | Panic => RPanic
